@@ -41,6 +41,12 @@ Record cobs := Obs {
 
 Definition ccase := (config * list string * list (cop * cobs))%type.
 
+(** monomorphic constructors used by the generated case files (cheaper to
+    elaborate than nested pairs) *)
+Definition DE (t : string) (p : path) (n : notif) : string * path * notif := (t, p, n).
+Definition STEP (o : cop) (r : rcls) (feed : list notif) (dump : list (string * path * notif))
+  (m : bool) : cop * cobs := (o, Obs r feed dump m).
+
 Fixpoint rcls_eqb (a b : rcls) {struct a} : bool :=
   match a, b with
   | ROk, ROk | RStale, RStale | RFuture, RFuture | ROther, ROther | RPanic, RPanic => true
@@ -121,6 +127,40 @@ Fixpoint feed_matches (gs : list fgroup) (feed : list notif) : bool :=
 
 Definition dump_entry := (string * path * notif)%type.
 
+(** Index paths under "meta" are the cache's own bookkeeping: the harness
+    projects them out of the dump and of the feed, and so does the model side. *)
+Definition is_meta_path (p : path) : bool :=
+  match p with k :: _ => String.eqb k "meta" | [] => false end.
+
+(** index path of a stored notification (first update; the prefix alone when
+    atomic) and of a delete notification's first delete *)
+Definition stored_index (m : notif) : outcome path :=
+  match n_upd m with
+  | [] => Panic 0%N
+  | u :: _ =>
+      join_prefix_and_path (gp_of_opt (n_prefix m))
+        (if n_atomic m then empty_gpath else gp_of_opt (u_path u))
+  end.
+
+Definition stored_is_meta (m : notif) : bool :=
+  match stored_index m with Ok p => is_meta_path p | _ => false end.
+
+Definition delete_is_meta (m : notif) : bool :=
+  match n_del m with
+  | d :: _ => match join_prefix_and_path (gp_of_opt (n_prefix m)) d with
+              | Ok p => is_meta_path p | _ => false end
+  | [] => false
+  end.
+
+Definition feed_entry_is_meta (m : notif) : bool :=
+  match n_upd m with _ :: _ => stored_is_meta m | [] => delete_is_meta m end.
+
+Definition drop_meta_group (g : fgroup) : list fgroup :=
+  match g with
+  | FUpd n => if stored_is_meta n then [] else [g]
+  | FDel removed ts => [FDel (filter (fun d => negb (stored_is_meta d)) removed) ts]
+  end.
+
 Definition dump_leb (a b : dump_entry) : bool :=
   if String.eqb (fst (fst a)) (fst (fst b))
   then path_leb (snd (fst a)) (snd (fst b))
@@ -143,8 +183,8 @@ Inductive mfeed :=
 
 Definition mfeed_matches (m : mfeed) (feed : list notif) : bool :=
   match m with
-  | MGroups gs => feed_matches gs feed
-  | MBag l => bag_eqb l feed
+  | MGroups gs => feed_matches (flat_map drop_meta_group gs) feed
+  | MBag l => bag_eqb (filter (fun m => negb (feed_entry_is_meta m)) l) feed
   end.
 
 Definition opt_panic (o : option N) : rcls := match o with Some _ => RPanic | None => ROk end.
@@ -165,17 +205,19 @@ Definition mstep (c : cache) (o : cop) : cache * rcls * mfeed :=
   | OUpdateMeta now => let '(c', l, p) := cache_update_metadata c now in (c', opt_panic p, MBag l)
   end.
 
-Definition mdump (c : cache) : list dump_entry :=
+Definition mdump_all (c : cache) : list dump_entry :=
   flat_map (fun kt => map (fun pv => (fst kt, fst pv, snd pv))
                           (CTreeModel.query (t_tree (snd kt)) ["*"])) (c_targets c).
+
+Definition non_meta (l : list dump_entry) : list dump_entry :=
+  filter (fun e => negb (is_meta_path (snd (fst e)))) l.
+
+Definition mdump (c : cache) : list dump_entry := non_meta (mdump_all c).
 
 (** * The specification side of C02: a flat map per target
 
     Index paths under "meta" are the cache's own bookkeeping and are projected
     out (the property does not speak about them). *)
-
-Definition is_meta_path (p : path) : bool :=
-  match p with k :: _ => String.eqb k "meta" | [] => false end.
 
 Record starget := ST {
   s_leaves : list (path * notif);
@@ -216,13 +258,7 @@ Definition events (n : notif) : option (list sev) :=
   else Some (map (fun u => SUpd (single n u)) (n_upd n) ++ map (fun d => SDel d (n_ts n)) (n_del n)).
 
 (** index path of a stored unit / of a delete *)
-Definition upd_index (m : notif) : outcome path :=
-  match n_upd m with
-  | [] => Panic 0%N
-  | u :: _ =>
-      join_prefix_and_path (gp_of_opt (n_prefix m))
-        (if n_atomic m then empty_gpath else gp_of_opt (u_path u))
-  end.
+Definition upd_index := stored_index.
 
 Definition del_index (pr : option gpath) (q : gpath) : outcome path :=
   join_prefix_and_path (gp_of_opt pr) q.
@@ -347,9 +383,6 @@ Definition sstep (cfg : config) (s : sstate) (o : cop) : sstate * option rcls :=
 
 Definition sdump (s : sstate) : list dump_entry :=
   flat_map (fun kt => map (fun pv => (fst kt, fst pv, snd pv)) (s_leaves (snd kt))) s.
-
-Definition non_meta (l : list dump_entry) : list dump_entry :=
-  filter (fun e => negb (is_meta_path (snd (fst e)))) l.
 
 (** * Verdicts
 
